@@ -375,6 +375,11 @@ def _ctor(pool, op):
             return darsia.Image(arr, space_dim=arr.ndim if not op.get("space_dim") else op["space_dim"], scalar=True, **kw)
         if op["cls"] == "ScalarImage":
             return darsia.ScalarImage(arr, space_dim=arr.ndim, **kw)
+        if op["cls"] == "OpticalImage":
+            rgb = np.stack([arr, arr, arr], axis=-1)
+            return darsia.OpticalImage(rgb, color_space="RGB", **kw)
+        if op["cls"] == "generate_grid":
+            return darsia.generate_grid(pool[op["img"]])
         if op["cls"] == "Grid":
             return darsia.Grid(tuple(arr.shape), pool[op["voxel_size"]])
         if op["cls"] == "Geometry":
@@ -425,7 +430,7 @@ REGISTRY = {
     "bounding_box": (lambda p, o: darsia.bounding_box(darsia.make_voxel(p[o["pts"]]), padding=o.get("pad", 0), max_size=p[o["max"]] if o.get("max") else None), ("pts", "max")),
     "bounding_box_inverse": (lambda p, o: darsia.bounding_box_inverse(p[o["box"]]), ("box",)),
     "random_patches": (lambda p, o: darsia.random_patches(p[o["mask"]], o["w"], o["n"]), ("mask",)),
-    "ctor": (_ctor, ("arr", "dims", "origin", "meta", "nv", "voxel_size")),
+    "ctor": (_ctor, ("arr", "dims", "origin", "meta", "nv", "voxel_size", "img")),
 }
 
 DEP_SITES = [("darsia.image.arithmetics", "cv2", "resize"), ("darsia.image.arithmetics", "np", "multiply"),
@@ -730,12 +735,24 @@ class C17Engine(Engine):
             sh = list(desc[a]["shape"])
             cut = r.randint(0, sh[ax] - 1)
             sh.pop(ax)
+            if r.random() < 0.3:
+                # Cartesian axis name and a physical coordinate instead of a matrix axis and a voxel index
+                desc[out] = {**desc[a], "dim": 2, "shape": None, "fam": False}
+                return {"op": "slice", "a": a, "cut": 0.25, "axis": r.choice(["x", "y", "z"]), "out": out}
             desc[out] = {**desc[a], "dim": 2, "shape": sh, "fam": False}
             return {"op": "slice", "a": a, "cut": cut, "axis": ax, "out": out}
         if kind == "reset_origin":
             a = self._pick(r, desc, lambda d: True)
             desc[out] = dict(desc[a])
             return {"op": "reset_origin", "a": a, "out": out}
+        if kind == "weight" and r.random() < 0.2:
+            a = self._pick(r, desc, lambda d: (d["series"] or d["chan"]) and d["dtype"] in ("float32", "float64") and d["cls"] != "OpticalImage")
+            if a is not None:
+                tail = ([desc[a]["series"]] if desc[a]["series"] else []) + ([desc[a]["chan"]] if desc[a]["chan"] else [])
+                name = f"wvec{step}"
+                sources[name] = {"kind": "array", "shape": tail, "id": r.randint(0, 999), "dtype": "float64"}
+                desc[out] = dict(desc[a])
+                return {"op": "weight", "a": a, "w": name, "out": out}
         if kind == "weight":
             a = self._pick(r, desc, fam)
             if a is None:
@@ -883,8 +900,16 @@ class C17Engine(Engine):
         if kind == "patches":
             return {"op": "random_patches", "mask": "mask", "w": 2, "n": r.randint(1, 4), "out": None}
         if kind == "ctor":
-            w = r.choice(["Image", "Image", "ScalarImage", "Geometry", "Grid"])
+            w = r.choice(["Image", "Image", "ScalarImage", "Geometry", "Grid", "OpticalImage", "generate_grid"])
             op = {"op": "ctor", "cls": w, "arr": "arr2", "out": out if w in ("Image", "ScalarImage") else None}
+            if w == "generate_grid":
+                op["img"] = self._pick(r, desc, lambda d: d["shape"] is not None) or "f0"
+                return op
+            if w == "OpticalImage":
+                op["dims"] = "dims2"
+                if r.random() < 0.5:
+                    op["height"] = 5.0
+                return op
             if w in ("Image", "ScalarImage"):
                 how = r.choice(["dims", "dims+height", "dims+width", "meta", "origin"])
                 if how.startswith("dims"):
@@ -1058,7 +1083,7 @@ class C17Engine(Engine):
         if f == "ctor":
             extra = "+".join(("extent" if k in ("height", "width", "depth") else k)
                              for k in ("dims", "height", "width", "origin", "meta") if op.get(k) is not None)
-            return f"ctor-{'image' if op['cls'] in ('Image', 'ScalarImage') else op['cls']}({extra})"
+            return f"ctor-{'image' if op['cls'] in ('Image', 'ScalarImage', 'OpticalImage') else op['cls']}({extra})"
         if f == "model":
             return "model-" + op["model"]
         if f == "geometry":
